@@ -183,7 +183,8 @@ fn decode(t: &mut Tape) -> CbCase {
     }
     let cfg = OptCfg { allow_badfilter: true, ..Default::default() };
     let mut rules = vec![];
-    for _ in 0..(1 + t.pick(12)) {
+    let nrules = if t.chance(1, 25) { 40 + t.pick(500) } else { 1 + t.pick(12) };
+    for _ in 0..nrules {
         let r = match t.pick(12) {
             0..=4 => gen::net_rule(t, &pool, &hosts, &cfg),
             5..=6 => gen::cosmetic_rule(t, &hosts),
@@ -228,7 +229,7 @@ fn decode(t: &mut Tape) -> CbCase {
 }
 
 pub fn check(ctx: &mut Ctx) {
-    ctx.rule = "debug-mode FilterSets of 1-12 lines from the network and cosmetic generators plus pools biased to: non-ASCII / malformed / mixed if+unless domains in domain= and from=, '$' inside patterns and regexes, scheme-only patterns with negated types, hostname wildcards, every resource-type subset (bit pattern), match-case, entity / negated / regex / non-ASCII cosmetic locations, rules the exporter must refuse (redirect, csp, generichide, removeparam, badfilter, full regex). Validity predicates on the output: no panic; all strings ASCII; url-filter accepted by a recogniser of Safari's regex subset; never both if-domain and unless-domain; no non-ignore rule after an ignore-previous-rules rule; filters_used == the lines (network first, then cosmetic, in order) whose individual conversion succeeds, and the number of emitted rules equals the sum of their outputs (+1 first-party-document rule iff a network rule converted); inclusion: for patterns without * and ^, every generated URL the rule matches (5 request types x 2 sources) is matched by the emitted url-filter. Non-trivial = converted plain-pattern rule with a domain list, non-default types/party, or an anchor.".into();
+    ctx.rule = "debug-mode FilterSets of 1-12 lines (1 in 25: 40-540 lines) from the network and cosmetic generators plus pools biased to: non-ASCII / malformed / mixed if+unless domains in domain= and from=, '$' inside patterns and regexes, scheme-only patterns with negated types, hostname wildcards, every resource-type subset (bit pattern), match-case, entity / negated / regex / non-ASCII cosmetic locations, rules the exporter must refuse (redirect, csp, generichide, removeparam, badfilter, full regex). Validity predicates on the output: no panic; all strings ASCII; url-filter accepted by a recogniser of Safari's regex subset; never both if-domain and unless-domain; no non-ignore rule after an ignore-previous-rules rule; filters_used == the lines (network first, then cosmetic, in order) whose individual conversion succeeds, and the number of emitted rules equals the sum of their outputs (+1 first-party-document rule iff a network rule converted); inclusion: for patterns without * and ^, every generated URL the rule matches (5 request types x 2 sources) is matched by the emitted url-filter. Non-trivial = converted plain-pattern rule with a domain list, non-default types/party, or an anchor.".into();
     ctx.assumptions = vec![
         "set-level output is compared with the library's own per-rule conversion (CbRuleEquivalent::try_from); the predicates on each emitted rule are independent".into(),
         "inclusion URLs carry no userinfo and no port".into(),
